@@ -449,24 +449,33 @@ def target_info(sq, kind, i, path, x):
 
 def admissible(sq, kind, i, path, x):
     tgt = target_info(sq, kind, i, path, x)
-    if isinstance(tgt, str) or tgt is None:
+    if isinstance(tgt, str):
+        # getter raises (bad index somewhere on the path): numpy's order of index / value checks is not modelled
+        return kind == 'AddSens' or (isinstance(x, (int, np.integer)) and not isinstance(x, bool))
+    if tgt is None:
         return True
     if x is None:
         # None assigned into an inexact array becomes nan (outside the integer-valued model)
         return not (kind == 'SetState' and path and np.iscomplexobj(tgt))
     # silent truncation of numpy complex objects into integer arrays is outside the model
-    x_np_complex = np.iscomplexobj(x) and not isinstance(x, complex)
+    x_np_complex = np.iscomplexobj(x) and isinstance(x, (np.generic, np.ndarray))
     if x_np_complex and not np.iscomplexobj(tgt) and kind != 'AddSens':
         return False
     if kind == 'AddSens' and path and np.iscomplexobj(x) and not np.iscomplexobj(tgt) and not is_arr(tgt):
         return False   # int scalar slot + complex -> numpy complex scalar -> silently truncated on assignment
-    if is_arr(x) and x.ndim >= 1 and is_arr(tgt):
-        if x.shape != tgt.shape:
-            try:
-                if np.broadcast_shapes(x.shape, tgt.shape) == tgt.shape:
-                    return False       # general broadcasting: not modelled
-            except ValueError:
-                pass
+    if is_arr(x) and x.ndim >= 1 and not is_arr(tgt) and path:
+        return False       # array into a scalar slot: ValueError or TypeError depending on dtype (not modelled)
+    if is_arr(x) and x.ndim >= 1 and is_arr(tgt) and x.shape != tgt.shape:
+        # general broadcasting (numpy accepts unequal shapes) is not modelled: try on dummies
+        try:
+            d = np.zeros(tgt.shape)
+            if kind == 'AddSens':
+                d += np.zeros(x.shape)
+            else:
+                d[...] = np.zeros(x.shape)
+            return False
+        except ValueError:
+            pass
     return True
 
 
@@ -732,6 +741,9 @@ def run(ctx):
                     'modelled rather than verified: CPython attribute/property protocol (augmented assignment through a '
                     'property = get, __iadd__, set), copy.deepcopy of ndarrays, numpy in-place add / item assignment with '
                     'overlapping operands read-before-write (validated by correspondence)']
+    # Signal.__init__ records its creation site with inspect.stack() (error-message text only, ~5 ms per object);
+    # replaced from outside by a constant, nothing the property speaks about depends on it
+    pym.core_objects.get_init_str = lambda: 'File "verif", line 0, in harness'
     vlib.audit(ctx)
     if not vlib.ensure_static(ctx):
         return
